@@ -106,7 +106,7 @@ def harnesses(tier):
                           "every entry (value or none, exported, read-only) and the scope symbolic" % (shape, m),
                           STEP_FNS.get(st, []) + [VS + "get"], STEP_CLAUSE.get(st, "debug"),
                           # a new variable under every scope (mask 0) is the largest formula: 16 GB was not enough with a volatile top
-                          timeout=1800 if (st == "assign" and m == 0) else 900, mem_gb=28 if (st == "assign" and m == 0) else 16,
+                          timeout=1800 if (st == "assign" and m == 0) else 900, mem_gb=20 if (st == "assign" and m == 0) else 16,
                           mod=M, cover_group="c16_" + st))
     return hs
 
@@ -117,6 +117,7 @@ def run(tier, seed, only=None):
     out.assumptions = [
         "T1c: std HashMap and the per-name Vec replaced by heap-free stand-ins with the same documented contract (slot map of 3 names, vector of capacity 4; out-of-range slicing / draining panics as in std)",
         "T7v: the Location stored in a Variable / PositionalParams is replaced by a unit stand-in (only stored and reported; no scope decision reads it)",
+        "not covered (measured: 18 GB after 20 min): the assign step for a variable that exists in NO context when the topmost context is volatile (shapes rv, rrv, rvv with mask 0); the same step with a regular top and all other occupancies are covered",
         "simulation step: pre-state = any per-name stack over a context stack of <= 3 contexts (every shape, every occupancy), entry contents symbolic; "
         "values are scalar strings; array values, quirks and positional parameters are outside (T9v: the formatting of array values in env_c_strings is cut)",
         "which command kinds push / pop which contexts (perform_assignments, function calls, built-in types) is outside: command execution (async closures); "
